@@ -3,5 +3,111 @@
 #![allow(missing_docs, unused_imports, unused, dead_code, unreachable_pub)]
 #![allow(clippy::all, clippy::pedantic)]
 
-// wrappers for the cfg property group
+// wrappers for the cfg property group (C39): load a configuration text exactly
+// the way `Config::from_file` + `ntp-ctl validate` do (toml::from_str::<Config>,
+// then Config::check) and report the accepted step thresholds as plain numbers.
 use super::m;
+
+use crate::daemon::config::{Config, NtpSourceConfig};
+use ntp_proto::{NtpDuration, StepThreshold};
+
+/// One bound of an accepted `StepThreshold`: `None` = unlimited ("inf").
+#[derive(Debug, Clone, Copy, PartialEq)]
+pub struct Bound {
+    pub present: bool,
+    /// seconds as reported by the public `NtpDuration::to_seconds` (sign exact)
+    pub seconds: f64,
+}
+
+fn bound(d: Option<NtpDuration>) -> Bound {
+    match d {
+        None => Bound { present: false, seconds: 0.0 },
+        Some(d) => Bound { present: true, seconds: d.to_seconds() },
+    }
+}
+
+#[derive(Debug, Clone)]
+pub struct Loaded {
+    /// result of `Config::check`
+    pub check_ok: bool,
+    pub single_forward: Bound,
+    pub single_backward: Bound,
+    pub startup_forward: Bound,
+    pub startup_backward: Bound,
+    /// accumulated-step-panic-threshold (single number only); informational
+    pub accumulated: Bound,
+    pub n_sources: usize,
+    pub n_servers: usize,
+    pub n_nts_ke: usize,
+    /// mode names of the accepted sources, in order
+    pub source_modes: Vec<&'static str>,
+}
+
+fn summarize(cfg: &Config, check_ok: bool) -> Loaded {
+    let s = &cfg.synchronization.synchronization_base;
+    let st: StepThreshold = s.single_step_panic_threshold;
+    let su: StepThreshold = s.startup_step_panic_threshold;
+    Loaded {
+        check_ok,
+        single_forward: bound(st.forward),
+        single_backward: bound(st.backward),
+        startup_forward: bound(su.forward),
+        startup_backward: bound(su.backward),
+        accumulated: bound(s.accumulated_step_panic_threshold),
+        n_sources: cfg.sources.len(),
+        n_servers: cfg.servers.len(),
+        n_nts_ke: cfg.nts_ke.len(),
+        source_modes: cfg
+            .sources
+            .iter()
+            .map(|s| match s {
+                NtpSourceConfig::Standard(_) => "server",
+                NtpSourceConfig::Nts(_) => "nts",
+                NtpSourceConfig::Pool(_) => "pool",
+                NtpSourceConfig::NtsPool(_) => "nts-pool",
+                NtpSourceConfig::Sock(_) => "sock",
+                #[cfg(feature = "pps")]
+                NtpSourceConfig::Pps(_) => "pps",
+                #[cfg(target_os = "linux")]
+                NtpSourceConfig::Csptp(_) => "csptp",
+            })
+            .collect(),
+    }
+}
+
+/// `toml::from_str::<Config>(text)` followed by `Config::check` — the two steps
+/// `Config::from_file` / `ntp-ctl validate` perform on the file contents.
+pub fn load_and_check(text: &str) -> Result<Loaded, String> {
+    match toml::from_str::<Config>(text) {
+        Ok(cfg) => {
+            let ok = cfg.check();
+            Ok(summarize(&cfg, ok))
+        }
+        Err(e) => Err(e.to_string()),
+    }
+}
+
+/// The same through the public file-based entry point used by the daemon and by
+/// `ntp-ctl validate` (`Config::from_args(Some(path), [], [])` + `check`).
+pub fn load_file_and_check(path: &std::path::Path) -> Result<Loaded, String> {
+    match Config::from_args(Some(&path), vec![], vec![]) {
+        Ok(cfg) => {
+            let ok = cfg.check();
+            Ok(summarize(&cfg, ok))
+        }
+        Err(e) => Err(e.to_string()),
+    }
+}
+
+/// A lone `StepThreshold` deserialised from `key = <value>` (both forms go through
+/// the same `Deserialize` impl the configuration uses).
+pub fn step_threshold_from_toml(value_text: &str) -> Result<(Bound, Bound), String> {
+    #[derive(serde::Deserialize)]
+    struct One {
+        t: StepThreshold,
+    }
+    match toml::from_str::<One>(&format!("t = {value_text}\n")) {
+        Ok(o) => Ok((bound(o.t.forward), bound(o.t.backward))),
+        Err(e) => Err(e.to_string()),
+    }
+}
